@@ -24,7 +24,7 @@ import (
 
 // C16 — regex functions match Go regexp; pattern cache is exact, bounded, thread-safe.
 
-const ruleC16 = "rapid regex: (s, p, r) with p from a regex grammar (literals, classes, '.', * + ? {m,n}, capturing groups up to 12 so that $10 vs $1 matters, non-capturing groups, alternation, anchors, (?i)), s over a small alphabet (literal or the string-value of a node), r made of literal characters and $n with 1 <= n <= groups, sometimes directly followed by a digit or a letter; plus constant invalid patterns. Oracle: matches(s,p) = regexp.MustCompile(p).MatchString(s); replace(s,p,r) = ReplaceAllString with every $n read as group n (longest valid group number), cross-checked by a manual expansion from FindAllStringSubmatchIndex; an invalid constant pattern in matches() is a Compile error. rapid cache histories: a cache from NewLoadingCache with capacity 0..5 and a counting, sometimes-failing load function; actions get(key) over a key alphabet larger than the capacity, swapping xpath.RegexpCache for a small custom cache while matches()/replace() are evaluated, and (race build) a block of g goroutines x keys. Invariants after every step: the value returned is the load of exactly the requested key; entries <= capacity when capacity > 0; a cached key is answered without loading and with the stored value; a missing key is loaded exactly once; a failed load is not remembered (the next get loads again); no data race. Non-trivial: regex case with >= 1 group reference or a match; history that crosses the capacity boundary (a reset happened) or contains a failed load followed by a retry; distinct by (s,p,r) / (capacity, history)."
+const ruleC16 = "rapid regex: (s, p, r) with p from a regex grammar (literals, classes, '.', * + ? {m,n}, capturing groups up to 12 so that $10 vs $1 matters, non-capturing groups, alternation, anchors, (?i)), s over a small alphabet, sometimes with multi-byte characters (a literal, the string-value of a node, or - for the empty string - the empty node-set), r made of literal characters and $n with 1 <= n <= groups, sometimes directly followed by a digit or a letter; plus constant invalid patterns, plus 'pair' cases: matches() with two resembling patterns (suffix/prefix added, one character changed, upper-cased, or independent) in one expression, each answer belonging to its own pattern. Oracle: matches(s,p) = regexp.MustCompile(p).MatchString(s); replace(s,p,r) = ReplaceAllString with every $n read as group n (longest valid group number), cross-checked by a manual expansion from FindAllStringSubmatchIndex; an invalid constant pattern in matches() is a Compile error. rapid cache histories: a cache from NewLoadingCache with capacity 0..5 and a counting, sometimes-failing load function; actions get(key) over a key alphabet larger than the capacity, swapping xpath.RegexpCache for a small custom cache while matches()/replace() are evaluated, and (race build) a block of g goroutines x keys. Invariants after every step: the value returned is the load of exactly the requested key; entries <= capacity when capacity > 0; a cached key is answered without loading and with the stored value; a missing key is loaded exactly once; a failed load is not remembered (the next get loads again); no data race. Non-trivial: regex case with >= 1 group reference or a match; history that crosses the capacity boundary (a reset happened) or contains a failed load followed by a retry; distinct by (s,p,r) / (capacity, history)."
 
 var (
 	uC16Regex = harness.NewUnit("C16", "rapid-regex", ruleC16)
@@ -79,7 +79,7 @@ func (g *rxGen) atom(depth int) string {
 		}
 		return "b"
 	}
-	return rapid.SampledFrom([]string{"a", "b", "ab"}).Draw(g.rt, "lit2")
+	return rapid.SampledFrom([]string{"a", "b", "ab", "a", "b", "é", "中"}).Draw(g.rt, "lit2")
 }
 
 func (g *rxGen) piece(depth int) string {
@@ -216,6 +216,22 @@ func oracleC16Regex(l *harness.Live) (c16Info, *harness.Failure) {
 	if f != nil {
 		return info, f
 	}
+	if mode == "pair" {
+		// two patterns that resemble each other in one expression: each answer belongs to its own pattern
+		p2 := strParam(l, "p2")
+		re2, err2 := regexp.Compile(p2)
+		if err2 != nil {
+			return info, harness.Failf("valid pattern", err2.Error(), "generator produced an invalid second pattern")
+		}
+		want := fmt.Sprintf("%v|%v|%v", re.MatchString(s), re2.MatchString(s), re.MatchString(s))
+		info.want = want
+		if v.Kind != "str" || v.S != want {
+			return info, harness.Failf(strconv.Quote(want), v.String(), "matches(%q, p) for p = %q, %q, %q in one expression", s, p, p2, p)
+		}
+		info.nontrivial = re.MatchString(s) != re2.MatchString(s)
+		info.labels = []string{"pair", fmt.Sprintf("differ:%v", info.nontrivial)}
+		return info, nil
+	}
 	if mode == "matches" {
 		want := re.MatchString(s)
 		info.want = fmt.Sprint(want)
@@ -248,12 +264,16 @@ var invalidPatterns = []string{"(", "a(b", "[a", "a{2,1}", "*a", "(?P<n>a", `\`,
 func TestC16Regex(t *testing.T) {
 	runRapid(t, uC16Regex, func(rt *rapid.T) {
 		g := &rxGen{rt: rt}
-		mode := rapid.SampledFrom([]string{"matches", "matches", "replace", "replace", "replace", "invalid"}).Draw(rt, "mode")
+		mode := rapid.SampledFrom([]string{"matches", "matches", "replace", "replace", "replace", "invalid", "pair"}).Draw(rt, "mode")
 		p := g.pattern()
 		if mode == "invalid" {
 			p = rapid.SampledFrom(invalidPatterns).Draw(rt, "badpat")
 		}
-		s := rapid.StringOfN(rapid.SampledFrom([]rune("aabbc1A ")), 0, 8, -1).Draw(rt, "s")
+		alphabet := []rune("aabbc1A ")
+		if rapid.IntRange(0, 5).Draw(rt, "multibyte") == 0 {
+			alphabet = []rune("aabé中c1A ")
+		}
+		s := rapid.StringOfN(rapid.SampledFrom(alphabet), 0, 8, -1).Draw(rt, "s")
 		r := ""
 		if mode == "replace" {
 			n := rapid.IntRange(0, 4).Draw(rt, "nrep")
@@ -282,23 +302,55 @@ func TestC16Regex(t *testing.T) {
 			root := &xdoc.Node{Kind: xpath.RootNode, Kids: []*xdoc.Node{{Kind: xpath.ElementNode, Local: "a", Kids: []*xdoc.Node{{Kind: xpath.TextNode, Value: s}}}}}
 			doc = xdoc.NewDoc(root)
 			sArg = &xast.Path{Abs: true, Steps: []interface{}{&xast.Step{Axis: "child", Test: xast.NodeTest{Kind: "name", Local: "a"}, Abbr: true}}}
+		} else if s == "" && rapid.Bool().Draw(rt, "emptyset") {
+			// the empty node-set: its string-value is the empty string
+			sArg = &xast.Path{Abs: true, Steps: []interface{}{&xast.Step{Axis: "child", Test: xast.NodeTest{Kind: "name", Local: "zzz"}, Abbr: true}}}
 		}
 		var e xast.Expr
-		if mode == "replace" {
+		p2 := ""
+		if mode == "pair" {
+			switch rapid.IntRange(0, 5).Draw(rt, "p2kind") {
+			case 0:
+				p2 = p + rapid.SampledFrom([]string{"a", "b", "$", "?"}).Draw(rt, "p2suffix")
+			case 1:
+				p2 = rapid.SampledFrom([]string{"a", "^", "b"}).Draw(rt, "p2prefix") + p
+			case 2:
+				// same length, one character changed
+				b := []byte(p)
+				for i := len(b) - 1; i >= 0; i-- {
+					if b[i] == 'a' || b[i] == 'b' || b[i] == 'c' {
+						b[i] = 'a' + (b[i]-'a'+1)%3
+						break
+					}
+				}
+				p2 = string(b)
+			case 3:
+				p2 = strings.ToUpper(p)
+			default:
+				p2 = (&rxGen{rt: rt}).pattern()
+			}
+			if _, err := regexp.Compile(p2); err != nil || p2 == p {
+				p2 = p + "b"
+			}
+			m := func(pat string) xast.Expr {
+				return &xast.Call{Name: "string", Args: []xast.Expr{&xast.Call{Name: "matches", Args: []xast.Expr{sArg, &xast.Str{S: pat}}}}}
+			}
+			e = &xast.Call{Name: "concat", Args: []xast.Expr{m(p), &xast.Str{S: "|"}, m(p2), &xast.Str{S: "|"}, m(p)}}
+		} else if mode == "replace" {
 			e = &xast.Call{Name: "replace", Args: []xast.Expr{sArg, &xast.Str{S: p}, &xast.Str{S: r}}}
 		} else {
 			e = &xast.Call{Name: "matches", Args: []xast.Expr{sArg, &xast.Str{S: p}}}
 		}
-		if strings.Contains(p, "'") || strings.Contains(s, "'") || strings.Contains(r, "'") {
+		if strings.Contains(p, "'") || strings.Contains(s, "'") || strings.Contains(r, "'") || strings.Contains(p2, "'") {
 			return
 		}
 		l := &harness.Live{Property: "C16", Check: "C16/regex", Doc: doc, Ctx: doc.Root, AST: e, Expr: xast.Render(e),
-			Params: map[string]interface{}{"s": s, "p": p, "r": r, "mode": mode}}
+			Params: map[string]interface{}{"s": s, "p": p, "r": r, "mode": mode, "p2": p2}}
 		info, f := oracleC16Regex(l)
 		if f != nil {
 			harness.Report(rt, uC16Regex, l, f)
 		}
-		uC16Regex.Case(harness.Hash64(s, p, r, mode), info.nontrivial, info.labels, func() interface{} {
+		uC16Regex.Case(harness.Hash64(s, p, r, mode, p2), info.nontrivial, info.labels, func() interface{} {
 			return map[string]interface{}{"expr": l.Expr, "expected": info.want}
 		})
 	})
